@@ -64,6 +64,24 @@ T = {
     "eager_version": ("vecdb::variants::eager::any_vec::<impl vecdb::traits::any::AnyVec for vecdb::variants::eager::EagerVec<V>>::version",
                       "must_reach", r"vecdb::base::header::Header::computed_version",
                       "an EagerVec reports its computed version (so that columns derived from it are invalidated when it is)"),
+    "computed_field": ("vecdb::base::header::Header::update_computed_version", "mut_field", "computed_version",
+                       "update_computed_version must store into HeaderInner.computed_version (and nothing else)"),
+    "stamp_field": ("vecdb::base::header::Header::update_stamp", "mut_field", "stamp",
+                    "update_stamp must store into HeaderInner.stamp"),
+    "computed_not_vec_version": ("vecdb::base::header::Header::update_computed_version", "not_mut_field", "vec_version",
+                                 "update_computed_version must not touch the stored vec version (import compares it)"),
+    "reset_drops_changes": ("vecdb::base::read_write::ReadWriteBaseVec::<I, T>::reset_base", "must_reach",
+                            r"std::path::Path::exists|std::fs::remove_dir_all",
+                            "reset must discard the change records of the history it abandons on every path"),
+    "raw_save_rb": ("vecdb::variants::raw::inner::read_write::writable::<impl vecdb::traits::writable::WritableVec<I, T> for "
+                    "vecdb::variants::raw::inner::read_write::ReadWriteRawVec<I, T, S>>::save_rollback_state", "must_reach",
+                    r"vecdb::base::rollback::<impl vecdb::base::read_write::ReadWriteBaseVec<I, T>>::save_prev_for_rollback",
+                    "save_rollback_state re-bases the previous-state buffers on the CURRENT buffers (incl. pushed values)"),
+    "cmp_save_rb": ("vecdb::variants::compressed::inner::read_write::writable::<impl vecdb::traits::writable::WritableVec<I, T> for "
+                    "vecdb::variants::compressed::inner::read_write::ReadWriteCompressedVec<I, T, S>>::save_rollback_state",
+                    "must_reach",
+                    r"vecdb::base::rollback::<impl vecdb::base::read_write::ReadWriteBaseVec<I, T>>::save_prev_for_rollback",
+                    "save_rollback_state re-bases the previous-state buffers on the CURRENT buffers (incl. pushed values)"),
     "try_lock_regions": ("rawdb::regions::Regions::open", "must_reach", r"std::fs::File::try_lock",
                          "Regions::open must take the advisory lock"),
     "sync_bg_joins": ("rawdb::Database::sync_bg_tasks", "reach", r"std::thread::(join_handle::)?JoinHandle::<T>::join",
@@ -89,11 +107,20 @@ def mut_field(body, field):
     return False
 
 
+# private convenience helpers that a refactoring may inline away (everything else is API other rules name)
+OPTIONAL = {"mark_dirty_abs", "write_to_mmap", "regions_write_at", "regions_flush"}
+
+
 def check(ctx, chk, keys):
     O, P, L = ctx.O, ctx.P, ctx.L
     for k in keys:
         bid, kind, arg, what = T[k]
         if bid not in P.bodies:
+            if k in OPTIONAL:
+                # a convenience helper that was inlined into its callers: nothing can rely on it any more (rules
+                # that match its name find no site and fall back on their own floors)
+                chk.oblige("H %s: helper absent (inlined into its callers) - nothing relies on it" % bid.split("::")[-1], True)
+                continue
             raise AnchorMissing("helper %s not found" % bid)
         body = P.bodies[bid]
         if kind == "must_reach":
@@ -106,6 +133,8 @@ def check(ctx, chk, keys):
             ok = any(item[0] == "L" and item[1] == arg for item in L.ACQ.get(bid, {}))
         elif kind == "mut_field":
             ok = mut_field(body, arg) or any(mut_field(P.bodies[c], arg) for c in P.children.get(bid, []))
+        elif kind == "not_mut_field":
+            ok = not (mut_field(body, arg) or any(mut_field(P.bodies[c], arg) for c in P.children.get(bid, [])))
         elif kind == "precedes":
             a, b = M(arg[0]), M(arg[1])
             ok = bool(O.sites(body, a)) and bool(O.sites(body, b)) and not O.precedes(body, a, b)
